@@ -25,7 +25,7 @@ META = {
             "succeed is counted as not exercised. Without clear_data() the cached grid of the previous redshift set is re-used whatever the "
             "new redshifts are (the cache has no key): recorded in the notes as existing behaviour, not part of the property. "
             "A-numpy/scipy: linspace, unique, sort, cumulative_trapezoid behave as documented.",
-    "technique": "contract-based deductive verification of get_pred / clear_data (AST->VC->SMT: grid and mask structure, trapezoid formula, frame, cache protocol) "
+    "technique": "contract-based deductive verification of get_pred / clear_data (AST->VC->SMT: grid and mask structure, trapezoid formula, frame, cache protocol), of the pair run_sympify hands to get_pred and of the time_limit contract it relies on "
                  "+ bounded stand-in of the integral against an independent adaptive quadrature on the real code; metamorphic relations "
                  "(duplicates, permutation, cache reuse, clear-and-rebuild)",
 }
